@@ -1,9 +1,15 @@
 package e3
 
 import (
+	"bufio"
+	"encoding/json"
 	"fmt"
+	"os"
+	"os/exec"
+	"path/filepath"
 	"strings"
 	"testing"
+	"time"
 )
 
 // TestC12 — intruders against a real AutoMTLS pair: main listener and every
@@ -147,6 +153,66 @@ func TestC12(t *testing.T) {
 			if len(out.Samples) < 3 {
 				out.Samples = append(out.Samples, map[string]any{"cell": c.Name, "attempt": o.Op, "result": o.Val})
 			}
+		}
+	}
+	// ---- a hand-written host (this test itself) launches a real plugin.Serve child and hands it a PLUGIN_CLIENT_CERT that
+	// the plugin cannot load (escaped line breaks, another PEM label, garbage): whatever the plugin does then, it does not
+	// serve a plaintext peer. Control: without the variable the same probe is answered.
+	vp := filepath.Join(base, "vplugin")
+	if os.Getenv("VERIF_OLD_TOOLCHAIN") != "" {
+		vp = filepath.Join(base, "old", "vplugin")
+	}
+	hostCert, _ := genCert(t)
+	variants := map[string]string{
+		"<unset> (control)":         "\x00",
+		"garbage":                   "this is not a certificate",
+		"PEM with escaped newlines": strings.ReplaceAll(hostCert, "\n", "\\n"),
+		"other PEM label":           strings.ReplaceAll(hostCert, "CERTIFICATE", "TRUSTED CERTIFICATE"),
+		"truncated PEM":             hostCert[:len(hostCert)/2],
+	}
+	for name, val := range variants {
+		for _, proto := range []string{"netrpc", "grpc"} {
+			desc := fmt.Sprintf("hand-written host, %s plugin, PLUGIN_CLIENT_CERT=%s", proto, name)
+			dir := filepath.Join(base, fmt.Sprintf("c12raw-%s-%d", proto, len(out.Outcomes)+out.Evaluations))
+			os.MkdirAll(dir, 0o755)
+			pc, _ := json.Marshal(PluginConf{CookieKey: cookieKey, CookieValue: cookieVal, Legacy: 1, LegacyProto: proto, GRPCServer: true, TLS: "none"})
+			cmd := exec.Command(vp)
+			cmd.Env = []string{"VP_CONF=" + string(pc), "TMPDIR=" + dir, "PLUGIN_UNIX_SOCKET_DIR=" + dir, cookieKey + "=" + cookieVal, "PLUGIN_PROTOCOL_VERSIONS=1"}
+			if val != "\x00" {
+				cmd.Env = append(cmd.Env, "PLUGIN_CLIENT_CERT="+val)
+			}
+			stdout, _ := cmd.StdoutPipe()
+			out.Evaluations++
+			out.Distinct++
+			bad := func(f string, a ...any) {
+				out.Violations = append(out.Violations, enumViolation{Case: desc, Class: "S", Msg: fmt.Sprintf(f, a...) + " [" + desc + "]"})
+			}
+			if err := cmd.Start(); err != nil {
+				bad("cannot start the plugin: %v", err)
+				continue
+			}
+			lineCh := make(chan string, 1)
+			go func() { l, _ := bufio.NewReader(stdout).ReadString('\n'); lineCh <- l }()
+			var line string
+			select {
+			case line = <-lineCh:
+			case <-time.After(15 * time.Second):
+			}
+			f := strings.Split(strings.TrimSpace(line), "|")
+			answered := false
+			if len(f) >= 5 && f[2] == "unix" {
+				answered = intrude(f[3], proto, "plain")
+			}
+			cmd.Process.Kill()
+			cmd.Wait()
+			os.RemoveAll(dir)
+			switch {
+			case val == "\x00" && !answered:
+				bad("control: without PLUGIN_CLIENT_CERT the plaintext probe got no answer (line %q): the probe does not work", line)
+			case val != "\x00" && answered:
+				bad("a plaintext peer was served although the host had asked for AutoMTLS (handshake line %q)", strings.TrimSpace(line))
+			}
+			out.Outcomes[fmt.Sprintf("raw-host answered=%v", answered)]++
 		}
 	}
 	emit(out)
